@@ -3,6 +3,8 @@ import Mathlib.LinearAlgebra.Span.Basic
 import Mathlib.Algebra.BigOperators.Group.List.Basic
 import Mathlib.Tactic.Ring
 import Mathlib.Tactic.Abel
+import Mathlib.Data.Matrix.Basic
+import Mathlib.Algebra.BigOperators.Fin
 /-!
 # Helper lemmas for C18 (Krylov solvers): the model's arithmetic over a field and a module
 
@@ -396,5 +398,144 @@ theorem expandLoop_mem (f : E → E) (tol : K) (herm : Bool) (S : Submodule K E)
     | false => exact ih st' key
 
 end loop
+
+/-! ### `getD` / finite-sum forms of the invariants -/
+
+theorem lc_eq_sum_of_length_le (cs : List K) (vs : List E) (n : Nat) (h : cs.length ≤ n) :
+    lc cs vs = ∑ i ∈ Finset.range n, cs.getD i 0 • vs.getD i 0 := by
+  induction cs generalizing vs n with
+  | nil => simp
+  | cons c cs ih =>
+    cases n with
+    | zero => simp at h
+    | succ n =>
+      cases vs with
+      | nil => simp
+      | cons v vs =>
+        rw [lc_cons, Finset.sum_range_succ', ih vs n (by simpa using h), add_comm]
+        simp
+
+section forms
+variable [DecidableEq K] (ip : E → E → K) (sq ab rp : K → K) (lt : K → K → Bool)
+
+omit [DecidableEq K] in
+theorem KInv.getD_rel {f : E → E} {st : KS K E} (h : KInv f st) {j : Nat} (hj : j < st.cols.length) :
+    (st.cols.getD j []).length = j + 2 ∧ f (st.V.getD j 0) = lc (st.cols.getD j []) st.V := by
+  have hjV : j < st.V.length := by have := h.len; omega
+  have := h.rel j st.cols[j] st.V[j] (List.getElem?_eq_getElem hj) (List.getElem?_eq_getElem hjV)
+  simpa [List.getD, List.getElem?_eq_getElem hj, List.getElem?_eq_getElem hjV] using this
+
+/-- Arnoldi relation, column `j`: `f V[j] = Σ_{i ≤ j+1} H[(i,j)] V[i]` -/
+theorem KInv.sum_rel {f : E → E} {st : KS K E} (h : KInv f st) {j : Nat} (hj : j < st.cols.length) :
+    f (st.V.getD j 0) =
+      ∑ i ∈ Finset.range (j + 2), hEntry (fieldArith ip sq ab rp lt : Arith K E) st.cols i j • st.V.getD i 0 := by
+  obtain ⟨h1, h2⟩ := h.getD_rel hj
+  rw [h2, lc_eq_sum_of_length_le _ _ (j + 2) h1.le]
+  rfl
+
+omit [DecidableEq K] in
+theorem HappyInv.getD_rel {f : E → E} {st : KS K E} {w' : E} (h : HappyInv f st w') {j : Nat}
+    (hj : j + 1 < st.V.length) :
+    (st.cols.getD j []).length = j + 2 ∧ f (st.V.getD j 0) = lc (st.cols.getD j []) st.V := by
+  have hjV : j < st.V.length := by omega
+  have hjc : j < st.cols.length := by have := h.len; omega
+  have := h.rel j st.cols[j] st.V[j] (List.getElem?_eq_getElem hjc) (List.getElem?_eq_getElem hjV) hj
+  simpa [List.getD, List.getElem?_eq_getElem hjc, List.getElem?_eq_getElem hjV] using this
+
+omit [DecidableEq K] in
+theorem HappyInv.getD_last {f : E → E} {st : KS K E} {w' : E} (h : HappyInv f st w') :
+    (st.cols.getD (st.V.length - 1) []).length = st.V.length ∧
+      f (st.V.getD (st.V.length - 1) 0) = lc (st.cols.getD (st.V.length - 1) []) st.V + w' := by
+  have hp := h.pos
+  have hjV : st.V.length - 1 < st.V.length := by omega
+  have hjc : st.V.length - 1 < st.cols.length := by have := h.len; omega
+  have := h.last st.cols[st.V.length - 1] st.V[st.V.length - 1] (List.getElem?_eq_getElem hjc)
+    (List.getElem?_eq_getElem hjV)
+  simpa [List.getD, List.getElem?_eq_getElem hjc, List.getElem?_eq_getElem hjV] using this
+
+/-- with a vanishing remainder: `f V[j] = Σ_{i<m} H[(i,j)] V[i]` for ALL `j < m = len(V)` -/
+theorem HappyInv.sum_rel {f : E → E} {st : KS K E} (h : HappyInv f st 0) {j : Nat} (hj : j < st.V.length) :
+    (st.cols.getD j []).length ≤ st.V.length ∧
+    f (st.V.getD j 0) = lc (st.cols.getD j []) st.V ∧
+    f (st.V.getD j 0) =
+      ∑ i ∈ Finset.range st.V.length,
+        hEntry (fieldArith ip sq ab rp lt : Arith K E) st.cols i j • st.V.getD i 0 := by
+  by_cases hj' : j + 1 < st.V.length
+  · obtain ⟨h1, h2⟩ := h.getD_rel hj'
+    refine ⟨by omega, h2, ?_⟩
+    rw [h2, lc_eq_sum_of_length_le _ _ st.V.length (by omega)]
+    rfl
+  · have hjl : j = st.V.length - 1 := by omega
+    obtain ⟨h1, h2⟩ := h.getD_last
+    rw [← hjl, add_zero] at h2
+    rw [← hjl] at h1
+    refine ⟨h1.le, h2, ?_⟩
+    rw [h2, lc_eq_sum_of_length_le _ _ st.V.length h1.le]
+    rfl
+
+/-- entries of `square_matrix_from_dict(H, m)` -/
+theorem mEntry_squareMatrix (cols : List (List K)) (m i j : Nat) (hi : i < m) (hj : j < m) :
+    mEntry (fieldArith ip sq ab rp lt : Arith K E) (squareMatrix (fieldArith ip sq ab rp lt : Arith K E) cols m) i j
+      = hEntry (fieldArith ip sq ab rp lt : Arith K E) cols i j := by
+  simp [mEntry, squareMatrix, List.getD, hi, hj]
+
+theorem linComb_mem (S : Submodule K E) (d : E) (cs : List K) (vs : List E) (hd : d ∈ S) (h : ∀ v ∈ vs, v ∈ S) :
+    linComb (fieldArith ip sq ab rp lt) d cs vs ∈ S := by
+  cases cs with
+  | nil => exact hd
+  | cons c cs =>
+    cases vs with
+    | nil => exact hd
+    | cons v vs => rw [linComb_eq _ _ _ _ _ _ _ _ ⟨by simp, by simp⟩]; exact lc_mem S _ _ h
+
+end forms
+
+section eigs
+variable [DecidableEq K] (ip : E → E → K) (sq ab rp : K → K) (lt : K → K → Bool)
+
+/-- `T[i][j] = H[(i,j)]`, `i, j < m`, as a `Matrix` -/
+def ritzMatrix (cols : List (List K)) (m : Nat) : Matrix (Fin m) (Fin m) K :=
+  Matrix.of fun i j => hEntry (fieldArith ip sq ab rp lt : Arith K E) cols i j
+
+/-- `Fin` form of `HappyInv.sum_rel` -/
+theorem HappyInv.fin_rel {f : E → E} {st : KS K E} (h : HappyInv f st 0) (j : Fin st.V.length) :
+    f st.V[j] = ∑ i : Fin st.V.length, ritzMatrix (E := E) ip sq ab rp lt st.cols st.V.length i j • st.V[i] := by
+  have := (h.sum_rel ip sq ab rp lt j.2).2.2
+  rw [Finset.sum_range] at this
+  simp only [List.getD, List.getElem?_eq_getElem j.2, Option.getD_some] at this
+  rw [Fin.getElem_fin, this]
+  refine Finset.sum_congr rfl (fun i _ => ?_)
+  simp [ritzMatrix]
+
+omit [Field K] [AddCommGroup E] [Module K E] [DecidableEq K] in
+theorem ite_error_eq_ok {ε α : Type} {c : Prop} [Decidable c] {e : ε} {X : Except ε α} {res : α}
+    (h : (if c then Except.error e else X) = Except.ok res) : ¬ c ∧ X = Except.ok res := by
+  split at h
+  · exact absurd h (by simp)
+  · exact ⟨‹_›, h⟩
+
+/-- what a successful `eigs` returns -/
+theorem eigs_ok (f : E → E) (eig : List (List K) → List (K × List K)) (tolE : K) (v0 : E) (k : Nat)
+    (which : String) (ncv : Nat) (herm : Bool) (res : List (K × E))
+    (h : eigs (fieldArith ip sq ab rp lt) f eig tolE v0 k which ncv herm = .ok res) :
+    sq (ip v0 v0) ≠ 0 ∧
+    ∀ r, r = expand (fieldArith ip sq ab rp lt) f tolE ncv herm
+        { V := [((1 : K) / sq (ip v0 v0)) • v0], cols := [] } →
+      ∀ m, m = (if r.2 then r.1.V.length else r.1.V.length - 1) →
+        res = ((orderPairs (fieldArith ip sq ab rp lt : Arith K E) which
+            (eig (squareMatrix (fieldArith ip sq ab rp lt : Arith K E) r.1.cols m))).take k).map
+          (fun p => (p.1, linComb (fieldArith ip sq ab rp lt) (((1 : K) / sq (ip v0 v0)) • v0) p.2 (r.1.V.take m))) := by
+  unfold eigs at h
+  dsimp only at h
+  obtain ⟨hz, h⟩ := ite_error_eq_ok h
+  obtain ⟨_, h⟩ := ite_error_eq_ok h
+  refine ⟨fun h0 => hz (by show decide (sq (ip v0 v0) = 0) = true; simpa using h0), ?_⟩
+  intro r hr m hm
+  subst hr hm
+  simp only [Except.ok.injEq] at h
+  rw [← h]
+  rfl
+
+end eigs
 
 end YModel.Krylov
